@@ -96,5 +96,63 @@ theorem clean_wN2 : Clean wN2 := by
 example : RanNodupFrom {} 0 wN2 [2, 3, 1] false :=
   ran_nodup_reachable {} {} rfl 0 0 rulesN histN2 [2, 3, 1] false clean_wN2
 
+/-! ### An overridden file that was edited a second time (the former fourth counterexample) -/
+
+/-- 1 = `t` (11), 2 = `p` (12: `redo-ifchange t`), 3 = `q` (13: `redo-ifchange p`).  `t` is built, then
+overwritten by hand and accepted as overridden; then it is edited by hand again. -/
+def histO : List UserOp :=
+  [ .setProg (srcContent 1) { },
+    .setProg (srcContent 2) { ifchange := [[1]] },
+    .setProg (srcContent 3) { ifchange := [[2]] },
+    .write 11 1, .write 12 2, .write 13 3,
+    .cmd (.ifchange [1] false),
+    .write 1 7, .cmd (.ifchange [1] false),
+    .write 1 8 ]
+
+def wO : World := runOps {} 0 histO (initWorld rulesN)
+
+set_option maxHeartbeats 4000000 in
+/-- The record of `t` is overridden and out of step with the file ... -/
+theorem wO_out_of_step : (wO.recs 1).isOverride = true ∧ (wO.recs 1).stamp ≠ some (readStamp wO 1) := by
+  unfold wO histO rulesN
+  eval_run
+
+set_option maxHeartbeats 4000000 in
+/-- ... and the world is clean all the same (before the repair of `start_self` it had to be excluded). -/
+theorem clean_wO : Clean wO := by
+  refine ⟨hyg_rulesN wO ?_ ?_, ?_, ?_, ?_⟩
+  · unfold wO histO rulesN
+    eval_run
+  · intro c sc h
+    revert h
+    unfold wO histO rulesN
+    eval_run
+    intro h
+    repeat' split at h
+    all_goals first | (cases h; exact ⟨rfl, rfl⟩) | cases h
+  · unfold wO histO rulesN
+    eval_run
+  · unfold wO histO rulesN
+    eval_run
+  · intro z
+    unfold wO histO rulesN
+    eval_run
+    intro h _
+    have hz : z = 1 ∨ z = 11 ∨ z = 0 ∨ (z ≠ 1 ∧ z ≠ 11 ∧ z ≠ 0) := by omega
+    rcases hz with rfl | rfl | rfl | ⟨h1, h2, h3⟩
+    all_goals simp_all
+
+example : RanNodupFrom {} 0 wO [2, 3] false :=
+  ran_nodup_reachable {} {} rfl 0 0 rulesN histO [2, 3] false clean_wO
+
+set_option maxHeartbeats 4000000 in
+/-- The first request of `p` finds `t` dirty and rebuilds `p`; on the way `start_self` records the new stamp of `t`
+(flag kept), so the second request of `p` finds everything clean.  Order of execution: p, q — before the repair
+it was p, q, p. -/
+theorem override_edited_again_once :
+    ranList (runCmd {} 0 (.ifchange [2, 3] false) { wO with trace := [] }).2 = [3, 2] := by
+  unfold wO histO rulesN
+  eval_run
+
 end Ex
 end RedoModel.Deps.Once
